@@ -461,6 +461,7 @@ func init() {
 	registerProducerReplayers("C03", oracleC03)
 	checks["C01"] = func(c *Ctx) {
 		runProducers(c, "C01", oracleC01)
+		npSection(c, "C01", 0)
 		c.Assume("payloads are <=2 alphabet symbols in sequences, <=5/7 bytes in single writes, plus long symbols; values are those of the universe (DESIGN section 4)")
 	}
 	rules["C01"] = "every producer of redactable text (8 SafeWriter implementations on all call sequences, explicit-state search over buffer states, 5 formatting entry points on directives x universe, format programs and all 1-2 byte formats, 11 byte-string producers on all short byte strings, Join on all short lists) with the well-formedness oracle on every produced string; distinct = distinct outputs"
